@@ -26,7 +26,7 @@ CLAIMS = {
   text="Kernel-checked (decode_spec, decode_accepts_iff and one theorem per decoder): for every receiver and every byte string the decoder accepts iff the SEC1 specification does "
        "(00; 02/03||x with x<p and x^3+7 square; 04||x||y canonical and on the curve; nothing else), returns the specified point as a valid element, and on rejection returns "
        "invalidPointEncoding with the receiver unchanged.",
-  note=TB + "The decoders' length switch, prefix and parity logic are hand models tied by the decode family (all 256 prefixes, lengths 0..70, x>=p aliases, y+p aliases, hybrid prefixes, wrong parity, off-curve)."),
+  note=TB + "The four point decoders (length switch, prefix and parity logic, early returns with the receiver as it is at that point) are regenerated and proved equal to the model; DecodeHex/UnmarshalBinary wrappers and the 32-byte parser are hand models tied by the decode family (all 256 prefixes, lengths 0..70, x>=p aliases, y+p aliases, hybrid prefixes, wrong parity, off-curve)."),
  "C04": dict(
   technique="Lean 4 proof: encoders of any projective representation equal the SEC1 encoding of the abstract point; round trips by composition with the C03 theorem",
   text="Kernel-checked: Encode/EncodeUncompressed are the SEC1 compressed/uncompressed forms of the abstract point (00 for the identity) for every valid triple, hence identical for all "
